@@ -20,10 +20,20 @@ RULE = (
     "T=3 (0<=s<=e<=3 or both -1; thorough also T=4); consecutive triples of the enumeration form a "
     "directory (plus the empty directory); x 3 window types x {valid (no padding), pad-mode constant} x "
     "lobes {0,1,2}; default token flags on every run (then the output must pass validate_spect_data_set) "
-    "and one (thorough: all) of the other partial/retain combinations in rotation."
+    "and one (thorough: all) of the other partial/retain combinations in rotation. Spellings of the command's "
+    "arguments: --file-prefix in {'', 'x_'} x --file-suffix in {'.pt', '', '.feat.pt'} (one flag pair serves input "
+    "and output), utterance ids u1, u10, u1.a (dots; prefixes of one another) whose windows coincide (same T / "
+    "alignment / segments), decoy files that do not match prefix / suffix, the command's default --format-utt and "
+    "an explicit one, policies fixed / ali / ref x 4 configurations x default + one other token flag pair; the set "
+    "of output files must be exactly the expected one (fixed, ali) and every file name must carry prefix, suffix, "
+    "and its source id."
 )
 PAD = 7
 FMT = "{utt_id}@{idx}@{start}@{end}"
+FMT_DEFAULT = "{utt_id}.{start:05d}.{end:05d}"  # the command's default --format-utt
+SPELL_NAMES = ["u1", "u10", "u1.a"]  # ids with dots, ids that are prefixes of one another
+SPELL_PREFIXES = ("", "x_")
+SPELL_SUFFIXES = (".pt", "", ".feat.pt")
 LOBES = (0, 1, 2)
 
 
@@ -83,6 +93,9 @@ def shards(tier, seed):
         per = 2 if tier != "thorough" else 3
         for lo in range(0, n, per):
             out.append({"part": "dir", "policy": policy, "lo": lo, "hi": min(lo + per, n)})
+    for prefix in SPELL_PREFIXES:
+        for suffix in SPELL_SUFFIXES:
+            out.append({"part": "dir", "policy": "spelling", "prefix": prefix, "suffix": suffix})
     return out
 
 
@@ -93,11 +106,22 @@ def _feat(u, k, seed):
     return [[base + t + 0.25 * f for f in range(2)] for t in range(T)]
 
 
-def _write_src(root, utts, seed):
+def _names(call_or_utts, n=None):
+    if isinstance(call_or_utts, dict) and call_or_utts.get("names"):
+        return list(call_or_utts["names"])
+    return [f"u{k}" for k in range(n)]
+
+
+def _write_src(root, utts, seed, names=None, prefix="", suffix=".pt", decoys=()):
     for sub in ("feat", "ali", "ref"):
         os.makedirs(os.path.join(root, sub))
+    for d in decoys:  # files that do not belong to the data set (other prefix / suffix)
+        for sub, t in (("feat", torch.zeros(2, 2)), ("ali", torch.zeros(2, dtype=torch.long)),
+                       ("ref", torch.zeros(1, 3, dtype=torch.long))):
+            torch.save(t, os.path.join(root, sub, d))
+    names = names or [f"u{k}" for k in range(len(utts))]
     for k, u in enumerate(utts):
-        name = f"u{k}.pt"
+        name = prefix + names[k] + suffix
         torch.save(torch.tensor(_feat(u, k, seed), dtype=torch.float).view(u["T"], 2),
                    os.path.join(root, "feat", name))
         torch.save(torch.tensor(u["ali"], dtype=torch.long), os.path.join(root, "ali", name))
@@ -113,8 +137,53 @@ def _origin(exc):
     return name
 
 
+def _decoys(prefix, suffix):
+    out = []
+    if prefix:
+        out.append("y_decoy" + suffix)
+    if suffix and suffix != ".pt":
+        out.append(prefix + "u9.pt")
+    return out
+
+
+def _spelling_utts():
+    seg = [[11, 0, 1], [22, 1, 3]]
+    return [
+        {"T": 3, "ali": [0, 0, 1], "ref": seg},
+        {"T": 3, "ali": [0, 0, 1], "ref": seg},  # same windows as the first under every policy
+        {"T": 4, "ali": [0, 0, 1, 1], "ref": seg + [[33, 3, 4]]},
+    ]
+
+
+def _run_spelling(ctx, spec, tier, seed):
+    prefix, suffix = spec["prefix"], spec["suffix"]
+    utts = _spelling_utts()
+    root = f"/dev/shm/verif-{os.getpid()}/c10-spell-{SPELL_PREFIXES.index(prefix)}{SPELL_SUFFIXES.index(suffix)}"
+    src = os.path.join(root, "src")
+    try:
+        _write_src(src, utts, seed, SPELL_NAMES, prefix, suffix, _decoys(prefix, suffix))
+        data.validate_spect_data_set(data.SpectDataSet(src, prefix, suffix, suppress_alis=False, tokens_only=False))
+        ci = 0
+        for policy, fmt in (("fixed", "default"), ("fixed", "custom"), ("ali", "custom"), ("ref", "custom")):
+            for wt, v, l in (("symmetric", True, 0), ("symmetric", False, 1), ("causal", True, 1), ("future", False, 2)):
+                ci += 1
+                others = [(True, False), (False, True), (True, True)]
+                for partial, retain in [(False, False)] + (others if tier == "thorough" else [others[ci % 3]]):
+                    call = {"utts": utts, "policy": policy, "cfg": [wt, v, l], "partial": partial, "retain": retain,
+                            "names": SPELL_NAMES, "prefix": prefix, "suffix": suffix, "fmt": fmt}
+                    _eval(ctx, call, seed, src, os.path.join(root, "out"))
+    finally:
+        shutil.rmtree(root, ignore_errors=True)
+        try:
+            os.rmdir(os.path.dirname(root))
+        except OSError:
+            pass
+
+
 def run_shard(ctx, spec, tier, seed):
     policy = spec["policy"]
+    if policy == "spelling":
+        return _run_spelling(ctx, spec, tier, seed)
     dirs = _dirs(policy, tier)
     root = f"/dev/shm/verif-{os.getpid()}/c10-{policy}-{spec['lo']}"
     try:
@@ -152,7 +221,9 @@ def replay(ctx, call, seed):
     root = f"/dev/shm/verif-{os.getpid()}/c10-replay"
     try:
         src = os.path.join(root, "src")
-        _write_src(src, call["utts"], seed)
+        prefix, suffix = call.get("prefix", ""), call.get("suffix", ".pt")
+        _write_src(src, call["utts"], seed, call.get("names"), prefix, suffix,
+                   _decoys(prefix, suffix) if "prefix" in call else ())
         _eval(ctx, call, seed, src, os.path.join(root, "out"))
     finally:
         shutil.rmtree(root, ignore_errors=True)
@@ -185,8 +256,14 @@ def _eval(ctx, call, seed, src, out):
     case = {"part": "dir", "call": call, "seed": seed}
     sig0 = {"api": "chunk-torch-spect-data-dir", "policy": policy, "valid_only": v}
     shutil.rmtree(out, ignore_errors=True)
-    args = [src, out, "--policy", policy, "--lobe-size", str(l), "--window-type", wt, "--quiet", "--num-workers", "0",
-            "--format-utt", FMT]
+    names_k = _names(call, len(utts))
+    prefix, suffix = call.get("prefix", ""), call.get("suffix", ".pt")
+    default_fmt = call.get("fmt") == "default"
+    args = [src, out, "--policy", policy, "--lobe-size", str(l), "--window-type", wt, "--quiet", "--num-workers", "0"]
+    if not default_fmt:
+        args += ["--format-utt", FMT]
+    if "prefix" in call:  # otherwise the command's own defaults
+        args += ["--file-prefix", prefix, "--file-suffix", suffix]
     if not v:
         args += ["--pad-mode", "constant", "--pad-constant", str(PAD)]
     if partial:
@@ -222,13 +299,37 @@ def _eval(ctx, call, seed, src, out):
         return
     per_utt = {k: [] for k in range(len(utts))}
     for name in names["feat"]:
+        if not (name.startswith(prefix) and name.endswith(suffix) and len(name) > len(prefix) + len(suffix)):
+            ctx.violation(dict(sig0, symptom="output-file-name-lacks-prefix-or-suffix"), case,
+                          {"name": name, "prefix": prefix, "suffix": suffix})
+            return
+        core = name[len(prefix): len(name) - len(suffix)]
         try:
-            uid, idx, a, b = name[:-3].split("@")
-            k = int(uid[1:])
+            if default_fmt:
+                uid, a, b = core.rsplit(".", 2)
+                idx = -1
+            else:
+                uid, idx, a, b = core.rsplit("@", 3)
+            k = names_k.index(uid)
             per_utt[k].append((int(idx), int(a), int(b), name))
         except Exception:
-            ctx.violation(dict(sig0, symptom="chunk-not-labelled-with-a-source-utterance"), case, {"name": name})
+            ctx.violation(dict(sig0, symptom="chunk-not-labelled-with-a-source-utterance"), case,
+                          {"name": name, "utterance_ids": names_k, "all_output_files": names["feat"][:12]})
             return
+    if default_fmt:  # no index in the name: windows of the fixed policy are increasing
+        for k in per_utt:
+            per_utt[k] = [(i, a, b, n) for i, (a, b, n) in enumerate(sorted((a, b, n) for _, a, b, n in per_utt[k]))]
+    if policy != "ref":  # the windows are fully determined: the exact set of output files is, too
+        fmt = FMT_DEFAULT if default_fmt else FMT
+        want = sorted(prefix + fmt.format(utt_id=names_k[k], idx=i, start=w[0], end=w[1]) + suffix
+                      for k in range(len(utts)) for i, (w, _) in enumerate(exp[k][0]))
+        if want != names["feat"]:
+            missing = [n for n in want if n not in names["feat"]]
+            extra = [n for n in names["feat"] if n not in want]
+            ctx.count("dir_file_set_mismatch")
+            # reported below per utterance with its window classification; here only if the windows agree
+            if all(O.admits(exp[k][0], [(a, b) for _, a, b, _ in sorted(per_utt[k])]) for k in per_utt):
+                ctx.violation(dict(sig0, symptom="output-file-set-differs"), case, {"missing": missing[:8], "extra": extra[:8]})
     f6 = False
     nchunks = 0
     for k, u in enumerate(utts):
@@ -282,7 +383,7 @@ def _eval(ctx, call, seed, src, out):
             ctx.count("dir_runs_without_chunks")
             return
         try:
-            ds = data.SpectDataSet(out, suppress_alis=False, tokens_only=False)
+            ds = data.SpectDataSet(out, prefix, suffix, suppress_alis=False, tokens_only=False)
             if len(ds) != nchunks:
                 raise ValueError(f"data set has {len(ds)} utterances, {nchunks} chunks written")
             data.validate_spect_data_set(ds)
